@@ -348,7 +348,7 @@ func (e *Env) applyPackage(cs *schema.Case) {
 					}
 				}
 			case *ast.ExprStmt:
-				if call, ok := x.X.(*ast.CallExpr); ok && funcKey(c.Callee(call)) == "sort.Strings" && len(call.Args) == 1 {
+				if call, ok := x.X.(*ast.CallExpr); ok && (funcKey(c.Callee(call)) == "sort.Strings" || funcKey(c.Callee(call)) == "slices.Sort") && len(call.Args) == 1 {
 					if id, ok := call.Args[0].(*ast.Ident); ok && info.Uses[id] == sliceObj && collected.IsValid() {
 						sorted = x.Pos()
 					}
